@@ -141,6 +141,8 @@ func runC06(c *Ctx) {
 	checkFilesOrdering(c, "R06i")
 	c.Rule("R06k", ruleTextValidateStrict, 2)
 	checkValidateStrict(c, "R06k")
+	c.Rule("R06l", ruleTextSumReadWhole, 1)
+	checkSumReadWhole(c, "R06l")
 	c.Rule("R06j", ruleTextConfigBeforeFormat, 4)
 	checkConfigBeforeFormat(c, "R06j")
 	c.Rule("R06h", ruleTextWriteReplaces, 2)
